@@ -218,6 +218,29 @@ def run(ctx, rep):
             else:
                 rep.ob("io-must-use", f"{stable(b.key)}->{ck}", True, "result is used", b.file, t["l"])
     rep.floor("io-must-use", "Result-returning calls in file_writer", n_calls, 12)
+    # partial-transfer APIs: Write::write / Read::read return how many bytes were transferred; `?` only surfaces errors. If the count
+    # is never looked at, a short write (file-size limit, full disk, pipe) is reported as success and the exit status stays 0.
+    rep.rule("partial-io", "every call of io::Write::write / write_vectored / io::Read::read (the partial-transfer forms) in libwild and wild uses the returned byte count; write_all / read_exact are the complete forms")
+    import re as _re
+    PART = _re.compile(r"(as std::io::Write>::(write|write_vectored)|as std::io::Read>::(read|read_vectored)|^std::io::Write::(write|write_vectored)|^std::io::Read::(read|read_vectored))$")
+    FULL = _re.compile(r"(as std::io::Write>::write_all|as std::io::Read>::read_exact|^std::io::Write::write_all|^std::io::Read::read_exact|std::fs::write$|std::fs::read$)")
+    n_full = n_part = 0
+    for b in F.all_bodies:
+        if not b.key.startswith(("libwild::", "<libwild::", "wild::")):
+            continue
+        flow = P.flow(b)
+        for bi, t in flow.calls():
+            ck = callee_key(t["f"]) or ""
+            if FULL.search(ck):
+                n_full += 1
+            if not PART.search(ck):
+                continue
+            n_part += 1
+            used = _count_used(b, t["dest"][0])
+            rep.ob("partial-io", f"{stable(b.key)}->{ck.split('::')[-1]}", used,
+                   ("the returned byte count is used" if used else
+                    "the byte count returned by a partial-transfer call is never looked at: a short write/read is treated as complete (exit status 0 with a truncated output)"), b.file, t["l"])
+    rep.ob("partial-io", "matcher-control", n_full >= 3, f"{n_full} complete-transfer calls (write_all/read_exact/fs::write) and {n_part} partial-transfer calls seen", "libwild/src/file_writer.rs", 0)
     rep.assume("WILD_SAVE_SKIP_LINKING (an explicit request to only populate the save directory) makes Linker::run return Ok without an output by design")
     rep.assume("a panic or abort terminates the process with a non-zero status (Rust runtime: 101 / SIGABRT)")
     rep.assume("OOM and SIGSEGV behaviour, and mmap write-back failures, are outside the analysed program")
@@ -344,3 +367,86 @@ def run_nofork(ctx, rep, F, P):
         o = flow.origins(t["args"][0])
         rep.ob("wmc-exit", "nofork:status-flows", {x[1] for x in o if x[0] == "const"} >= {0}, f"exit status derives from constants {sorted(str(x[1]) for x in o if x[0] == 'const')}", b.file, t["l"])
     rep.assume("no-fork build: a panic or abort terminates this (only) process with a non-zero status")
+
+
+def _reads(body, local):
+    """(kind, payload) for every read of `local`: ('stmt', statement) | ('arg', terminator) | ('switch', terminator)"""
+    from mir import _operands_of_rvalue
+    out = []
+    for blk in body.blocks:
+        if blk.get("cleanup"):
+            continue
+        for s in blk["s"]:
+            if s["k"] != "assign":
+                continue
+            rv = s["rv"]
+            hit = any(op_place(o) and op_place(o)[0] == local for o in _operands_of_rvalue(rv))
+            if rv["k"] in ("ref", "rawptr", "discr") and rv["p"][0] == local:
+                hit = True
+            if hit:
+                out.append(("stmt", s))
+        t = blk["t"]
+        if t["k"] == "call" and any(op_place(a) and op_place(a)[0] == local for a in t["args"]):
+            out.append(("arg", t))
+        elif t["k"] == "switch" and op_place(t["d"]) and op_place(t["d"])[0] == local:
+            out.append(("switch", t))
+        elif t["k"] == "assert" and op_place(t["c"]) and op_place(t["c"])[0] == local:
+            out.append(("stmt", None))
+    if local == 0:
+        out.append(("return", None))
+    return out
+
+
+def _count_used(body, dest):
+    """Is the Ok payload (the byte count) of the Result in `dest` ever read? `?`/context adaptors and error propagation do not count."""
+    seen, work = set(), [dest]
+    while work:
+        l = work.pop()
+        if l in seen:
+            continue
+        seen.add(l)
+        for kind, x in _reads(body, l):
+            if kind == "switch":
+                continue
+            if kind == "return":
+                return True
+            if kind == "arg":
+                uk = callee_key(x["f"]) or ""
+                if uk.endswith("from_residual"):
+                    continue
+                if is_transparent(uk) or uk.endswith("Try>::branch") or uk.endswith("::with_context") or uk.endswith("::context") or uk.endswith("::map_err"):
+                    work.append(x["dest"][0])
+                    continue
+                return True
+            if x is None:
+                return True
+            rv = x["rv"]
+            if rv["k"] == "discr":
+                continue
+            src = op_place(rv.get("a")) if rv.get("a") else (tuple(rv["p"]) if rv.get("p") else None)
+            if src and any(p_ in ("@Break", "@Err") for p_ in src[1]):
+                continue
+            d = x["p"][0]
+            if body.locals[d].strip() in ("usize", "u64", "isize", "i64", "u32"):
+                if _int_used(body, d, set()):
+                    return True
+                continue
+            work.append(d)
+    return False
+
+
+def _int_used(body, l, seen):
+    """an integer local is `used` when something other than a plain copy into another (unused) local reads it"""
+    if l in seen:
+        return False
+    seen.add(l)
+    for kind, x in _reads(body, l):
+        if kind in ("arg", "switch", "return") or x is None:
+            return True
+        rv = x["rv"]
+        if rv["k"] in ("use", "cast") and not x["p"][1]:
+            if x["p"][0] == 0 or _int_used(body, x["p"][0], seen):
+                return True
+            continue
+        return True
+    return False
